@@ -330,7 +330,7 @@ class Run:
         self.decisions = []
         self.pc = []
         self.solver = z3.Solver()
-        self.solver.set("timeout", explorer.prune_timeout_ms)
+        self.solver.set("timeout", getattr(explorer.contract, "prune_timeout_ms", None) or explorer.prune_timeout_ms)
         self.obligs = []
         self.calls = []
         self.writes = []
